@@ -203,10 +203,14 @@ impl Storage {
                 StoreInfoType::Content => {
                     if !info.miss {
                         if let Some(data) = &info.data {
-                            storage
-                                .write(info.index, data)
-                                .await
-                                .map_err(map_random_access_err)?;
+                            // Writing nothing changes nothing; the backends disagree on
+                            // whether an empty write beyond the end extends the store.
+                            if !data.is_empty() {
+                                storage
+                                    .write(info.index, data)
+                                    .await
+                                    .map_err(map_random_access_err)?;
+                            }
                         }
                     } else {
                         match storage
